@@ -6,7 +6,6 @@ import (
 	"os"
 	"os/exec"
 	"strings"
-	"sync"
 	"time"
 
 	"github.com/rs/zerolog"
@@ -63,55 +62,4 @@ func fatalPath(c *hlib.Ctx) {
 		}
 	}
 	c.Res.ExtraCoverage["fatal_path_runs"] = runs
-}
-
-type slowWriter struct {
-	mu  sync.Mutex
-	got []string
-}
-
-func (w *slowWriter) Write(p []byte) (int, error) {
-	w.mu.Lock()
-	w.got = append(w.got, string(p))
-	w.mu.Unlock()
-	return len(p), nil
-}
-
-// realPrimitives: the uninstrumented Writer on the real sync/context primitives: Close returns and
-// drains in both modes (no schedule control here; a sanity run of what the shims stand for).
-func realPrimitives(c *hlib.Ctx) {
-	runs := 0
-	for _, poll := range []time.Duration{0, time.Millisecond} {
-		for it := 0; it < 40; it++ {
-			w := &slowWriter{}
-			dw := diode.NewWriter(w, 64, poll, nil)
-			var wg sync.WaitGroup
-			for g := 0; g < 3; g++ {
-				wg.Add(1)
-				go func(g int) {
-					defer wg.Done()
-					for i := 0; i < 5; i++ {
-						dw.Write([]byte(fmt.Sprintf("g%d-%d\n", g, i)))
-					}
-				}(g)
-			}
-			wg.Wait()
-			done := make(chan struct{})
-			go func() { dw.Close(); close(done) }()
-			select {
-			case <-done:
-			case <-time.After(5 * time.Second):
-				c.Violate(hlib.Violation{Key: "close-never-returns", Monitor: "real-primitives", Desc: "Writer.Close did not return within 5 s on the real runtime", Case: map[string]interface{}{"poll": poll.String()}})
-				return
-			}
-			w.mu.Lock()
-			n := len(w.got)
-			w.mu.Unlock()
-			if n != 15 {
-				c.Violate(hlib.Violation{Key: "close-does-not-drain", Monitor: "real-primitives", Desc: "15 messages written into a ring of 64, Close returned, not all delivered", Case: map[string]interface{}{"poll": poll.String()}, Observed: n, Expected: 15})
-			}
-			runs++
-		}
-	}
-	c.Res.ExtraCoverage["real_primitive_runs"] = runs
 }
